@@ -14,6 +14,7 @@ import (
 	"verifharness/internal/evid"
 	"verifharness/internal/gen"
 	"verifharness/internal/ingestx"
+	"verifharness/internal/model"
 	"verifharness/internal/stores"
 )
 
@@ -239,6 +240,12 @@ func runMut(c MutCase) (o evid.Outcome, err error) {
 		o.Class("noop")
 		return o, nil
 	}
+	// the mutation must change the logical table (what encoding/csv reads back, one row per key);
+	// e.g. turning a blank line into a duplicate of another row does not
+	if logical(c.Table, c.Cfg) == logical(m, c.Cfg) {
+		o.Class("noop")
+		return o, nil
+	}
 	db := stores.NewMem()
 	sum1, err := ingestx.Table(db, c.Table, c.Cfg)
 	if err != nil {
@@ -324,3 +331,30 @@ func headOf(repo *cli.Repo) ([]byte, error) {
 }
 
 func TestReplay(t *testing.T) { evid.Replay(t) }
+
+// logical returns a canonical string of the table's logical content: header, key and the sorted set
+// of rows as encoding/csv reads them back ("" when keys are not unique, which never equals).
+func logical(t gen.Table, cfg ingestx.Config) string {
+	cols, rows, err := gen.ParseCSV(t.CSV(cfg.Rune()), cfg.Rune())
+	if err != nil {
+		return "unparsable"
+	}
+	var b strings.Builder
+	b.WriteString(model.TupleID(cols))
+	fmt.Fprintf(&b, "|%v|", t.PK)
+	for _, g := range model.Canon(rows, t.PK) {
+		// with duplicate keys the surviving representative is unspecified: make such tables
+		// compare equal to nothing by including every candidate
+		seen := map[string]bool{}
+		for _, r := range g.Rows {
+			id := model.TupleID(r)
+			if !seen[id] {
+				seen[id] = true
+				b.WriteString(id)
+				b.WriteString(";")
+			}
+		}
+		b.WriteString("/")
+	}
+	return b.String()
+}
